@@ -39,10 +39,11 @@ func fatalf(f string, a ...any) { panic(harnessErr(fmt.Sprintf(f, a...))) }
 
 // batchSpec = one supervised case: a group of signatures built into one guest module in one layout.
 type batchSpec struct {
-	sigs []*sigT
-	li   int
-	rots []int
-	lm   int
+	sigs  []*sigT
+	li    int
+	rots  []int
+	lm    int
+	multi *mspec // several-host-modules scenario group (sigs empty)
 }
 
 func chunk(sigs []*sigT, li int, rots []int, lm int, out []batchSpec) []batchSpec {
@@ -51,14 +52,14 @@ func chunk(sigs []*sigT, li int, rots []int, lm int, out []batchSpec) []batchSpe
 	for _, s := range sigs {
 		sw := len(stylesFor(s)) * (len(rots) + 2) * (len(s.P) + len(s.R) + 3)
 		if len(cur) > 0 && w+sw > 24000 {
-			out = append(out, batchSpec{cur, li, rots, lm})
+			out = append(out, batchSpec{cur, li, rots, lm, nil})
 			cur, w = nil, 0
 		}
 		cur = append(cur, s)
 		w += sw
 	}
 	if len(cur) > 0 {
-		out = append(out, batchSpec{cur, li, rots, lm})
+		out = append(out, batchSpec{cur, li, rots, lm, nil})
 	}
 	return out
 }
@@ -120,6 +121,11 @@ func plan(thorough bool) (planOpts, []batchSpec, int, int, int) {
 	for li := 1; li < len(layouts); li++ {
 		batches = chunk(ls, li, layoutRots, lmNone, batches)
 	}
+	// several host modules with functions at the same indexes
+	for _, ms := range multiSpecs() {
+		ms := ms
+		batches = append(batches, batchSpec{multi: &ms})
+	}
 	// the function-listener dimension (plain layout)
 	lsl := listenerSlice(thorough)
 	for lm := lmAll; lm <= lmHostOnly; lm++ {
@@ -153,6 +159,12 @@ func runCase(batches []batchSpec, i int) (out string) {
 		}
 	}()
 	r := &runner{res: newResult()}
+	if ms := batches[i].multi; ms != nil {
+		r.runMulti(*ms, "", "")
+		r.res.Sample = map[string]any{"batch": i, "several_host_modules": ms.String(), "scenarios": len(ms.scenarios())}
+		j, _ := json.Marshal(r.res)
+		return "R " + string(j)
+	}
 	b := newBatch(batches[i].sigs, batches[i].li, batches[i].rots, batches[i].lm)
 	r.runBatch(b)
 	u := b.units[len(b.units)/2]
@@ -197,8 +209,12 @@ func main() {
 	sampleAt := map[int]any{}
 	skipped := 0
 	famSigs := map[string]int{}
-	layoutBatches, listenerBatches := 0, 0
+	layoutBatches, listenerBatches, multiBatches := 0, 0, 0
 	for _, b := range batches {
+		if b.multi != nil {
+			multiBatches++
+			continue
+		}
 		if b.li != 0 {
 			layoutBatches++
 			continue
@@ -229,6 +245,9 @@ func main() {
 				desc := []string{}
 				for _, s := range batches[i].sigs {
 					desc = append(desc, s.String())
+				}
+				if ms := batches[i].multi; ms != nil {
+					desc = []string{ms.String(), ms.String()}
 				}
 				run.Violation("process-"+crash.Kind, fmt.Sprintf("batch %d (%s ... %s) %s: %s", i, desc[0], desc[len(desc)-1], crash.Kind, fw.FirstLines(crash.Stderr, 4)),
 					map[string]any{"batch": i, "layout": layouts[batches[i].li].Name, "listeners": listenerModes[batches[i].lm], "signatures": desc})
@@ -288,10 +307,10 @@ func main() {
 			"small_signatures": fmt.Sprintf("all parameter lists of length <= %d x all result lists of length <= %d over {i32,i64,f32,f64,externref}", opts.maxP, opts.maxR),
 			"cliff_families":   fmt.Sprintf("all-i32/i64/f32/f64/externref, alternating int/float, int-mix, float-mix for arity 4..%d; 7 ints + k<=10 floats + m<=3 ints; each as params-only, results-only, both, params+2 results, 2 params+results", opts.maxArity),
 			"styles":           len(baseStyles), "typed_closures": len(typedDefs),
-			"directions": allDirs, "deep_const": map[string]int{"growth_boundaries": deepLevels, "window": deepWindow}, "module_layouts": layoutNames(), "layout_rotations": layoutRots, "layout_signatures": nLayoutSigs, "listener_modes": listenerModes, "listener_signatures": nLisSigs, "rotations": nRot, "boundary_rotations": nBoundary, "engines": engines,
+			"directions": allDirs, "deep_const": map[string]int{"growth_boundaries": deepLevels, "window": deepWindow}, "module_layouts": layoutNames(), "layout_rotations": layoutRots, "layout_signatures": nLayoutSigs, "several_host_modules": "2-3 host modules x 3 functions at the same indexes (aligned / rotated signatures) x style combinations; call words of length 2-3 in one guest function, via one reused api.Function, around a callback; direct and call_indirect", "listener_modes": listenerModes, "listener_signatures": nLisSigs, "rotations": nRot, "boundary_rotations": nBoundary, "engines": engines,
 			"alphabet_sizes": map[string]int{"i32": len(alpha[tI32]), "i64": len(alpha[tI64]), "f32": len(alpha[tF32]), "f64": len(alpha[tF64]), "externref": len(alpha[tExt])},
 		},
-		Extra: map[string]any{"signatures": nsigs, "signatures_by_family": famSigs, "modules": len(batches) * len(engines) * 2, "batches": len(batches), "layout_batches": layoutBatches, "listener_batches": listenerBatches, "batches_done": done,
+		Extra: map[string]any{"signatures": nsigs, "signatures_by_family": famSigs, "modules": len(batches) * len(engines) * 2, "batches": len(batches), "layout_batches": layoutBatches, "listener_batches": listenerBatches, "multi_host_batches": multiBatches, "batches_done": done,
 			"host_functions_defined": total.Units, "guest_functions_compiled": total.Funcs,
 			"top_level_calls": total.Calls, "host_function_invocations": total.HostCalls, "cases": total.Cases},
 	}, []string{
@@ -320,6 +339,29 @@ func replay(file string) {
 	var rp replayT
 	if err := json.Unmarshal(doc.Replay, &rp); err != nil || rp.Engine == "" {
 		fw.Fatalf("replay field is not a single case (crash replays list the batch signatures): %s", string(doc.Replay))
+	}
+	if rp.Multi != nil {
+		fmt.Printf("replaying %s: %s\n", doc.Signature, doc.What)
+		r := &runner{res: newResult(), only: &rp}
+		func() {
+			defer func() {
+				if p := recover(); p != nil {
+					if h, ok := p.(harnessErr); ok {
+						fw.Fatalf("%s", string(h))
+					}
+					panic(p)
+				}
+			}()
+			r.runMulti(rp.Multi.Spec, rp.Engine, rp.Multi.Scen)
+		}()
+		for _, k := range sortedKeys(r.res.Viols) {
+			fmt.Printf("STILL FAILS signature=%s: %s\n", k, r.res.Viols[k].What)
+		}
+		if len(r.res.Viols) > 0 {
+			os.Exit(1)
+		}
+		fmt.Println("case passes: all values crossed unchanged")
+		return
 	}
 	s := &sigT{Fam: "replay"}
 	for _, t := range rp.P {
